@@ -69,5 +69,15 @@ func directed() []dscript {
 	}})
 	c.Embedded = false
 	l = append(l, dscript{c, l[len(l)-1].steps})
+	// D10: cLogBuf full (the AHT keeps the leaf of the failed attempt), then a REPLICATED tx (its BlTxID comes
+	// from the header, so it passes the linking check) must first rewind the AHT (ResetSize in performPrecommit)
+	c = base(false, false, true)
+	c.MaxActive = 2
+	l = append(l, dscript{c, []*Step{
+		put(0, "k1", "v1", 1001), put(1, "k2", "v2", 1002), put(2, "k3", "v3", 1003),
+		{Kind: "allow", N: 2}, {Kind: "mkrepl", Ts: 1004}, {Kind: "allow", N: 3},
+		put(0, "k5", "v5", 1005), {Kind: "allow", N: 4}, {Kind: "mkrepl", Ts: 1006}, {Kind: "allow", N: 9},
+		put(1, "k7", "v7", 1007), {Kind: "allow", N: 9},
+	}})
 	return l
 }
